@@ -137,6 +137,20 @@ FIRST = {
     'C03-8': ('silent', ['C02', 'C13'], 'generic DEFINED rule: definite assignment over the functions a property depends on'),
     'C17-14': ('analysis-error', [], 'graph-table rule: beliefs about an empty edge table agree (max(.., default=..)); support rules run first'),
     'C01-9': ('reported', [], None),
+    # round 7: by kind of slip (order / orientation, control flow / bookkeeping)
+    'C04-11': ('reported', [], None),
+    'C11-8': ('reported', ['C01', 'C02', 'C08'], None),
+    'C17-15': ('reported', [], None),
+    'C13-6': ('analysis-error', [], 'load-time pass that sinks a hoisted common tail back into the branches (and flattens elif chains whose '
+                                    'branches return); len(self.A) / nsites inside indices are the number of sites'),
+    'C17-16': ('reported', ['C03'], None),
+    'C14-12': ('reported', ['C08', 'C09', 'C10'], None),
+    'C16-8': ('reported', ['C05', 'C06', 'C07', 'C17'], None),
+    'C05-10': ('analysis-error', [], 'NOT reported: MPO.from_opgraph rewritten around comprehensions and the node map; the layer rules of '
+                                     'C05.R3 cannot follow (exit 2, fail-closed) - kept as a known miss'),
+    'C10-9': ('analysis-error', [], 'the sinking pass makes the extracted half-sweeps visible again; C10.R4 (reported energy belongs to the final '
+                                    'half sweep) then fires'),
+    'C02-9': ('reported', ['C13'], None),
     # round 4: C06 (claimed late; first run = literal-shape version of the table engine)
     'C06-1': ('reported', [], None),
     'C06-2': ('reported', [], 'reported for the wrong reason at first (the conditional construction was not understood); now: undecided '
